@@ -13,6 +13,9 @@ RULE = (
     'weights absent/f4/f8 (same or other precision than the positions; f8 weights carry a 1/3 fraction), npartition up to 70001 (beyond 16-bit), sort on/off, nthread 1..16 (incl. > N); particle sets: uniform, duplicates, on stripe boundaries +-ulp, at 0 and at BoxSize; '
     'non-trivial = distinct (N class, npartition, coord, dtype, weights, sort, nthread, particle family) with N>=2'
 )
+RULE += (
+    ' Added after seeded round 9: stripe counts 262145 / 600000 / 2^22+1; column-major positions with and without sort and weights.'
+)
 ASSUMPTIONS = [
     'a particle whose exact x*npartition/BoxSize lies within 4 ulp (position dtype) of an integer may be in either adjacent stripe',
     'positions lie in [0, BoxSize] (documented domain)',
